@@ -44,6 +44,9 @@ func c15Case(c *runner.Ctx, src string, style int, seed uint64) {
 	c15Compare(c, src, runEnvs, typed, envBrief(e), fmt.Sprintf("%s|%d|%d", src, style, seed))
 }
 
+// every literal fits the parameter type, an intermediate result does not
+var c15NarrowIntermediate = map[string]bool{"FnI8(I8 + 100 * 2 / 4)": true, "FnI8(I8 + 120 * 2 - 239)": true}
+
 type c15RunEnv struct {
 	name string
 	v    interface{}
@@ -114,7 +117,12 @@ func c15Compare(c *runner.Ctx, src string, runEnvs []c15RunEnv, typed []c15Typed
 			for _, v := range vs {
 				all[v.name] = v.out.String()
 			}
-			c.Violate("modes-disagree:"+first.name+"|"+vs[i].name, fmt.Sprintf("%s returns %s, %s returns %s", first.name, first.out, vs[i].name, vs[i].out),
+			sig := "modes-disagree:" + first.name + "|" + vs[i].name
+			if c15NarrowIntermediate[src] {
+				// recorded finding (the inputs are fixed corpus entries)
+				sig = "modes-disagree:literals-retyped-to-a-narrow-parameter-wrap-in-an-intermediate-result"
+			}
+			c.Violate(sig, fmt.Sprintf("%s returns %s, %s returns %s", first.name, first.out, vs[i].name, vs[i].out),
 				map[string]interface{}{"source": src, "variants": all, "env": envDesc})
 			break
 		}
@@ -228,6 +236,8 @@ func init() {
 	corpus := []string{
 		"[Tuple(1, 2), Tuple(3, 4)]", "Tuple(1, 2) == Tuple(3, 4)", "len(filter([1, 2, 3], {Tuple(#) == Tuple(1)}))", "map(1..3, {Tuple(#, A)})", "Tuple(Tuple(A), Tuple(B))", "[Fast(1), Fast(1, 2)]",
 		"FnI8(I8 + 200 / 2)", "FnI8(I8 + 100)", "FnI8(-128)", "FnI8(I8 * 300 / 3)", "FnI8(127)", "FnI8(128 - 1)", "FnU8(255)", "FnU8(300 - 100)", "FnI8((AnyI % 5) + 200 / 2)",
+		"FnI8(I8 + 100 * 2 / 4)", "FnI8(I8 + 120 * 2 - 239)",
+		"FnF((P ? AnyF + 1 : 2) + 7 / 2)", "FnF((Q ? 2 : AnyF * 1) + 7 / 2)", "FnF([AnyF + 1][0] + 7 / 2)",
 		"Half((AnyF + 1) * (7 / 2))", "FnF(-(AnyF + 1) + 7 / 2)", "FnF((AnyI + 1) * 7 / 2)", "FnF32((AnyF - 1) / (1 / 2 + 1))",
 		"A == 1", "S == \"a\"", "A == I64", "AnyI == A", "AnyI == 1", "AnyS == S", "A == AnyI", "I8 == 1", "X == 1", "1 == X",
 		"FnF(X + 7 / 2)", "FnF(AnyI + 7 / 2)", "FnF(AnyF + 7 / 2)", "FnF(AnyF * 3 / 2)", "Half(AnyF - 1 / 2)", "FnAny(AnyI + 7 / 2)", "FnI(AnyI + 1)", "FnF(1)", "FnU8(255)", "Half(3)", "FnI64(7 / 2)", "Fast(1, 2.5, \"a\")",
